@@ -4,7 +4,9 @@
 package ice
 
 import (
+	"bytes"
 	"io"
+	"math"
 
 	"github.com/RoaringBitmap/roaring"
 	segment "github.com/blugelabs/bluge_segment_api"
@@ -35,4 +37,54 @@ func VerifPoolProbe() bool {
 	used := cap(s.Postings) > 0 || cap(s.FieldsInv) > 0 || cap(s.DictKeys) > 0
 	interimPool.Put(s)
 	return used
+}
+
+// VerifTermPostings is the builder's in-memory state for one term after the
+// per-document pass: what writeDictsTermField walks.
+type VerifTermPostings struct {
+	Term  string
+	Docs  []uint32
+	Freqs []uint64
+	Norms []uint32
+	// per posting: its locations as (field id, pos, start, end)
+	Locs [][][4]uint64
+}
+
+// VerifInterimPostings runs convert on a private builder object and reports, per
+// field (in FieldsInv order) and per term (in sorted DictKeys order), the
+// postings bitmap with the freq/norm and location windows of the builder's
+// backing arrays.  It is compiled only under the "verif" build tag.
+func VerifInterimPostings(results []segment.Document, normCalc func(string, int) float32) (
+	fields []string, out [][]VerifTermPostings, err error) {
+	s := &interim{}
+	s.normCalc = normCalc
+	s.results = results
+	s.chunkMode = defaultChunkMode
+	var br bytes.Buffer
+	s.w = newCountHashWriter(&br)
+	if _, _, _, err = s.convert(); err != nil {
+		return nil, nil, err
+	}
+	fields = append(fields, s.FieldsInv...)
+	for fieldID := range s.FieldsInv {
+		var terms []VerifTermPostings
+		for _, term := range s.DictKeys[fieldID] {
+			pid := s.Dicts[fieldID][term] - 1
+			t := VerifTermPostings{Term: term, Docs: s.Postings[pid].ToArray()}
+			locOffset := 0
+			for _, fn := range s.FreqNorms[pid] {
+				t.Freqs = append(t.Freqs, fn.freq)
+				t.Norms = append(t.Norms, math.Float32bits(fn.norm))
+				var ls [][4]uint64
+				for _, l := range s.Locs[pid][locOffset : locOffset+fn.numLocs] {
+					ls = append(ls, [4]uint64{uint64(l.fieldID), l.pos, l.start, l.end})
+				}
+				locOffset += fn.numLocs
+				t.Locs = append(t.Locs, ls)
+			}
+			terms = append(terms, t)
+		}
+		out = append(out, terms)
+	}
+	return fields, out, nil
 }
